@@ -264,7 +264,11 @@ impl<'a, R: RealNumberInternalTrait> Interpreter<'a, R> {
             .iter()
             .map(|arg| Self::eval_expression(arg, env))
             .collect::<Result<ArgVec<_>>>()?;
-        Ok((first.expect_procedure()?, evaluated_args_result))
+        // like a call that is not in tail position: the error points at the operator
+        match first.expect_procedure() {
+            Ok(procedure) => Ok((procedure, evaluated_args_result)),
+            Err(error) => Err(error.data.locate(procedure_expr.location)),
+        }
     }
 
     pub fn apply_procedure(
